@@ -148,7 +148,7 @@ theorem inv_wAppend {cfg : Cfg} {s : St} {d : Disk} (h : Inv cfg s d) {recs : Li
   simp only [stepWriter, Disk.exec, Disk.apply] at hs
   split at hs
   · rename_i hg
-    obtain ⟨hph, hw, hrecs⟩ := hg
+    obtain ⟨hph, hw, hrecs, _⟩ := hg
     simp only [Outcome.failed, Bool.false_eq_true, if_false, Option.some.injEq, Prod.mk.injEq] at hs
     obtain ⟨rfl, rfl⟩ := hs
     have hrun := h.run hph
